@@ -231,7 +231,7 @@ func (e *engine) userTok(code int, view *workflow.Record, planned string) {
 }
 
 // scripted step / callback / timeout function
-func (e *engine) scripted(code int, b *behT, status int) func(ctx context.Context, r *workflow.Run[Obj, st]) (st, error) {
+func (e *engine) scripted(code int, b *behT, status int, dests ...int) func(ctx context.Context, r *workflow.Run[Obj, st]) (st, error) {
 	return func(ctx context.Context, r *workflow.Run[Obj, st]) (st, error) {
 		n := e.attempt(code, r.RunID)
 		mark, tag, z, gst := b.eval4(n, r.Object.Seed)
@@ -245,6 +245,11 @@ func (e *engine) scripted(code int, b *behT, status int) func(ctx context.Contex
 		case 'R':
 			return st(z), nil
 		case 'E':
+			// every other failing invocation returns one of the unit's declared statuses ALONGSIDE the error: an error return's
+			// status is not a transition (step.go, callback.go and timeout.go all leave on err != nil before reading it)
+			if len(dests) > 0 && (n+r.Object.Seed)%2 == 0 {
+				return st(dests[0]), userErr{z}
+			}
 			return 0, userErr{z}
 		case 'G':
 			// an error together with a (declared) status: the status must be ignored
@@ -286,7 +291,7 @@ func (e *engine) build(inst int) *workflow.Workflow[Obj, st] {
 	c := e.c
 	b := workflow.NewBuilder[Obj, st]("wf")
 	for _, sc := range c.steps {
-		u := b.AddStep(st(sc.status), e.scripted(1000000+sc.status, sc.beh, sc.status), toSt(sc.dests)...)
+		u := b.AddStep(st(sc.status), e.scripted(1000000+sc.status, sc.beh, sc.status, sc.dests...), toSt(sc.dests)...)
 		var opts []workflow.Option
 		if sc.par != 0 {
 			opts = append(opts, workflow.ParallelCount(sc.par))
@@ -303,7 +308,7 @@ func (e *engine) build(inst int) *workflow.Workflow[Obj, st] {
 	for _, cc := range c.cbs {
 		j := cbIdx[cc.status]
 		cbIdx[cc.status]++
-		fn := e.scripted(2000000+1000*j+cc.status, cc.beh, cc.status)
+		fn := e.scripted(2000000+1000*j+cc.status, cc.beh, cc.status, cc.dests...)
 		b.AddCallback(st(cc.status), func(ctx context.Context, r *workflow.Run[Obj, st], rd io.Reader) (st, error) { return fn(ctx, r) }, toSt(cc.dests)...)
 	}
 	toIdx := map[int]int{}
@@ -321,7 +326,7 @@ func (e *engine) build(inst int) *workflow.Workflow[Obj, st] {
 			e.userTok(3000000+1000*j+tc.status, &view, fmt.Sprintf("t%d", e.s.ns(ex)))
 			return ex, nil
 		}
-		fn := e.scripted(4000000+1000*j+tc.status, tc.beh, tc.status)
+		fn := e.scripted(4000000+1000*j+tc.status, tc.beh, tc.status, tc.dests...)
 		u := b.AddTimeout(st(tc.status), timer, func(ctx context.Context, r *workflow.Run[Obj, st], now time.Time) (st, error) { return fn(ctx, r) }, toSt(tc.dests)...)
 		if tc.pause != 0 {
 			u.WithOptions(workflow.PauseAfterErrCount(tc.pause))
